@@ -10,7 +10,7 @@ from typing import Any, Dict, List, Optional
 from ..elements import as_poly, load_refdoms, RefdomInfo
 from ..interp import (Arr, Interp, Obj, PyFunc, Raised, Sqrt, StoreArr,
                       Unsupported, PTS)
-from ..model import AnalysisError, FuncInfo, Model, src, walk_no_nested
+from ..model import staged, AnalysisError, FuncInfo, Model, src, walk_no_nested
 from ..poly import Poly, Rat
 from ..sig import C, Contraction, einsum_call
 from .c20 import leibniz
@@ -1005,15 +1005,17 @@ def run(model: Model, rep, tier: str) -> None:
              "homogeneous (scale-free stopping test); values returned only "
              "under the test")
     refdoms = load_refdoms(model)
-    _newton(model, rep)
-    _affine_algebra(model, rep, refdoms)
-    _iso_algebra(model, rep)
-    _refdom_normals(rep, refdoms)
-    _normals_method(model, rep, refdoms, AFF, "MappingAffine")
-    _normals_method(model, rep, refdoms, ISO, "MappingIsoparametric")
-    _subset_guards(model, rep)
-    _iso_shapes(model, rep)
-    _map_signatures(model, rep)
+    staged(lambda: _newton(model, rep),
+           lambda: _affine_algebra(model, rep, refdoms),
+           lambda: _iso_algebra(model, rep),
+           lambda: _refdom_normals(rep, refdoms),
+           lambda: _normals_method(model, rep, refdoms, AFF,
+                                   "MappingAffine"),
+           lambda: _normals_method(model, rep, refdoms, ISO,
+                                   "MappingIsoparametric"),
+           lambda: _subset_guards(model, rep),
+           lambda: _iso_shapes(model, rep),
+           lambda: _map_signatures(model, rep))
     rep.require_min("C10-R1", 30)
     rep.require_min("C10-R2", 30)
     rep.require_min("C10-R3", 24)
